@@ -345,6 +345,13 @@ fn c03_ranges(c: &WigCase, bytes: &[u8], out: &mut Outcome) {
                     if let Ok(full) = plain.get_interval(&ch.name, s, e).map_err(|e| format!("{}", e)).and_then(collect_wig) {
                         let pattern = ((s + e) % 3) as usize;
                         let conv = |x: bigtools::Value| (x.start, x.end, x.value.to_bits());
+                        // count() and last() called on the iterator itself (a type may override either)
+                        if let (Ok(a), Ok(b)) = (plain.get_interval(&ch.name, s, e).map(|it| it.count()), cached.get_interval(&ch.name, s, e).map(|it| it.last().and_then(|x| x.ok()).map(conv))) {
+                            out.count("range_queries_consumed_through_count_and_last", 1);
+                            if a != full.len() || b != full.last().cloned() {
+                                out.fail("answer_depends_on_how_the_iterator_is_consumed", &tags, format!("{} [{},{}): count() {} and last() {:?}, the plain loop gives {:?}", ch.name, s, e, a, b, full));
+                            }
+                        }
                         for (what, got) in [
                             ("plain", plain.get_interval(&ch.name, s, e).map_err(|e| format!("{}", e)).and_then(|it| collect_nth(it, pattern, conv))),
                             ("cached", cached.get_interval(&ch.name, s, e).map_err(|e| format!("{}", e)).and_then(|it| collect_nth(it, (pattern + 1) % 3, conv))),
@@ -1288,6 +1295,12 @@ fn c04_ranges(c: &BedCase, bytes: &[u8], out: &mut Outcome) {
                     if let Ok(full) = plain.get_interval(&ch.name, s, e).map_err(|e| format!("{}", e)).and_then(collect_bed) {
                         let pattern = ((s + e) % 3) as usize;
                         let conv = |x: bigtools::BedEntry| (x.start, x.end, x.rest);
+                        if let (Ok(a), Ok(b)) = (plain.get_interval(&ch.name, s, e).map(|it| it.count()), cached.get_interval(&ch.name, s, e).map(|it| it.last().and_then(|x| x.ok()).map(conv))) {
+                            out.count("range_queries_consumed_through_count_and_last", 1);
+                            if a != full.len() || b != full.last().cloned() {
+                                out.fail("answer_depends_on_how_the_iterator_is_consumed", &tags, format!("{} [{},{}): count() {} and last() {:?}, the plain loop gives {:?}", ch.name, s, e, a, b, full));
+                            }
+                        }
                         for (what, got) in [
                             ("plain", plain.get_interval(&ch.name, s, e).map_err(|e| format!("{}", e)).and_then(|it| collect_nth(it, pattern, conv))),
                             ("cached", cached.get_interval(&ch.name, s, e).map_err(|e| format!("{}", e)).and_then(|it| collect_nth(it, (pattern + 1) % 3, conv))),
@@ -2028,6 +2041,9 @@ impl Check for C05 {
         // a few large fan-outs so that node counts near the u16 child count are not special
         v.push(C05Case { n: 300, b: 256, nchrom: 2, bed: false, nested: false, faults: false, spread: false });
         v.push(C05Case { n: 1000, b: 10, nchrom: 3, bed: false, nested: false, faults: false, spread: false });
+        // an index node above the leaves with more than 170 children (more than one 4 KiB page of
+        // 24-byte entries): 30 000 blocks under fan-out 172 (plain readers only, for the time it takes)
+        v.push(C05Case { n: 30_000, b: 172, nchrom: 1, bed: false, nested: false, faults: false, spread: false });
         v.push(C05Case { n: 300, b: 7, nchrom: 2, bed: true, nested: true, faults: false, spread: false });
         // nodes with more than 32 and more than 64 children whose spans nest
         v.push(C05Case { n: 200, b: 64, nchrom: 1, bed: true, nested: true, faults: false, spread: false });
@@ -2185,6 +2201,10 @@ impl Check for C05 {
                 if big && !(j < 2 || j + 2 >= maxitems || near(c.b) || near(c.b * c.b)) {
                     continue;
                 }
+                // (tens of thousands of blocks: every tenth node boundary of the lowest level)
+                if c.n >= 20_000 && !(j < 2 || j + 2 >= maxitems || near(c.b * c.b) || (j / c.b) % 10 == 0) {
+                    continue;
+                }
                 let long_end = if c.nested && j % 4 == 0 { 3 * j + 15 } else { 3 * j + 3 };
                 for p in [3 * j + 1, 3 * j + 3, long_end] {
                     let p = p * k;
@@ -2216,7 +2236,7 @@ impl Check for C05 {
                             // the caching reader, fresh for this first query, then every whole
                             // chromosome: nodes cached while answering a narrow query must serve
                             // every later one
-                            if !big || e - s <= 4 * k {
+                            if (!big || e - s <= 4 * k) && c.n < 20_000 {
                                 out.count("cached_first_query_histories", 1);
                                 let mut cr = BigBedRead::open(Cursor::new(bytes.clone())).unwrap().cached();
                                 if let Err(m) = c05_bed_q(&mut cr, name, s, e, &file_items[ci]) {
@@ -2274,7 +2294,7 @@ impl Check for C05 {
                                 if let Err(m) = c05_wig_q(&mut rd, name, s, e, &file_items[ci]) {
                                     out.fail("index_search_differs_from_linear_scan", &[], m);
                                 }
-                                if !big || e - s <= 4 * k {
+                                if (!big || e - s <= 4 * k) && c.n < 20_000 {
                                     out.count("cached_first_query_histories", 1);
                                     let mut cr = BigWigRead::open(Cursor::new(bytes.clone())).unwrap().cached();
                                     if let Err(m) = c05_wig_q(&mut cr, name, s, e, &file_items[ci]) {
